@@ -58,6 +58,9 @@ def tc_isinstance(tc, typ):
   return None
 
 
+MODULE = [None]      # reference_algebra module (set by run)
+
+
 def hooks(rank):
   def call(node, st, interp):
     t = call_tail(node)
@@ -68,13 +71,26 @@ def hooks(rank):
       if isinstance(args[0], TC):
         return args[0]
     if t == 'isinstance' and len(node.args) == 2:
-      typ = (dotted(node.args[1]) or '').split('.')[-1]
+      typs = [(dotted(e) or '').split('.')[-1] for e in (
+          node.args[1].elts if isinstance(node.args[1], ast.Tuple) else [node.args[1]])]
       if isinstance(args[0], Ref):
-        return Const(typ == 'TypeReference')
+        return Const('TypeReference' in typs)
       if isinstance(args[0], TC):
-        r = tc_isinstance(args[0], typ)
-        if r is not None:
-          return Const(r)
+        rs = [tc_isinstance(args[0], typ) for typ in typs]
+        if any(r is True for r in rs):
+          return Const(True)
+        if all(r is False for r in rs):
+          return Const(False)
+    if t == 'len' and args and isinstance(args[0], tuple):
+      return Const(len(args[0]))
+    if t == 'index' and isinstance(node.func, ast.Attribute) and args:
+      seq = interp.value(node.func.value, st)
+      if isinstance(seq, tuple) and all(isinstance(x, Const) for x in seq):
+        key = args[0].cls if isinstance(args[0], TC) else (
+            args[0].v if isinstance(args[0], Const) else None)
+        vals = [x.v for x in seq]
+        if key in vals:
+          return Const(vals.index(key))
     if t == 'id' and args and isinstance(args[0], Ref):
       return Const('id:' + args[0].name)
     if t == 'Rank' and args and isinstance(args[0], TC) and rank is not None:
@@ -93,6 +109,13 @@ def hooks(rank):
       return Const(None)
     if t == 'To' and args:
       return args[0]
+    # a small helper of the module (e.g. the clash marking moved out of Unify)
+    # is interpreted in place
+    if isinstance(node.func, ast.Name) and MODULE[0] is not None and \
+        node.func.id in MODULE[0].funcs and MODULE[0].funcs[node.func.id].parent is None:
+      h = MODULE[0].funcs[node.func.id]
+      if len(h.node.body) <= 6 and len(h.params) == len(args):
+        return interp.inline(h.node, dict(zip(h.params, args)), st)
     return NotImplemented
 
   def compare(op, l, r, st):
@@ -241,6 +264,34 @@ def spec(x, y):
   return 'conditional'      # closed records: on the field sets
 
 
+def chain_followers(ci):
+  """{method name: variable} for methods of TypeReference that advance a
+  variable with `while x.WeMustGoDeeper(): x = x.target` (x starts at self):
+  after the loop x is the end of the chain."""
+  out = {}
+  for name, fi in ci.methods.items():
+    for w in walk_local(fi.node):
+      if isinstance(w, ast.While) and 'WeMustGoDeeper' in norm(w.test):
+        base = norm(w.test).split('.')[0]
+        for st in w.body:
+          if isinstance(st, ast.Assign) and dotted(st.targets[0]) == base and \
+              norm(st.value) == '%s.target' % base:
+            out[name] = base
+  return out
+
+
+def returns_end_of_chain(ci):
+  """methods whose every return hands out the advanced variable itself (the
+  last reference of the chain), e.g. a LastReference() helper."""
+  fol = chain_followers(ci)
+  out = set()
+  for name, base in fol.items():
+    rets = [r for r in walk_local(ci.methods[name].node) if isinstance(r, ast.Return)]
+    if rets and all(r.value is not None and dotted(r.value) == base for r in rets):
+      out.add(name)
+  return out
+
+
 def end_of_chain(chk, rid):
   """Methods of TypeReference (other than the constructor) that redirect a
   reference do so at the END of the chain: the variable whose `.target` is
@@ -261,6 +312,13 @@ def end_of_chain(chk, rid):
             n += 1
             base = dotted(t.value)
             advanced = False
+            # the variable comes from a helper that returns the end of the chain
+            for y in walk_local(fi.node):
+              if isinstance(y, ast.Assign) and dotted(y.targets[0]) == base and \
+                  isinstance(y.value, ast.Call) and isinstance(y.value.func, ast.Attribute) and \
+                  y.value.func.attr in returns_end_of_chain(ci) and \
+                  dotted(y.value.func.value) == 'self':
+                advanced = True
             for w in walk_local(fi.node):
               if isinstance(w, ast.While) and 'WeMustGoDeeper' in norm(w.test) and \
                   norm(w.test).startswith(str(base) + '.'):
@@ -282,6 +340,7 @@ def run(chk):
   chk.assume('A3-like: the specification matrix in rules/c16.py (derived from the '
              'property statement) is the trusted oracle; chain compression loops '
              'do not change the abstract class of a reference')
+  MODULE[0] = repo.by_name('reference_algebra')
   rank = rank_table(repo)
   chk.extra['rank'] = rank
   chk.rule('C16-R1', 'exhaustive 11x11 decision table of Unify over the type '
@@ -374,8 +433,21 @@ def run(chk):
   u = FnView(repo, 'reference_algebra.Unify')
   whiles = [n for n in u.cfg.stmt_nodes() if isinstance(u.cfg.stmt[n], ast.While) and
             'WeMustGoDeeper' in norm(u.cfg.stmt[n].test)]
+  def is_identity_test(t):
+    for c in ast.walk(t):
+      if isinstance(c, ast.Compare) and len(c.ops) == 1 and \
+          isinstance(c.ops[0], (ast.Is, ast.Eq)):
+        sides = []
+        for e in (c.left, c.comparators[0]):
+          if isinstance(e, ast.Call) and call_tail(e) == 'id' and e.args:
+            e = e.args[0]
+          sides.append(dotted(e))
+        if None not in sides and set(sides) == set(u.fi.params[:2]) and \
+            (isinstance(c.ops[0], ast.Is) or 'id(' in norm(c)):
+          return True
+    return False
   idtest = [n for n in u.cfg.stmt_nodes() if isinstance(u.cfg.stmt[n], ast.If) and
-            'id(' in norm(u.cfg.stmt[n].test)]
+            is_identity_test(u.cfg.stmt[n].test)]
   subjects = {norm(u.cfg.stmt[n].test).split('.')[0] for n in whiles}
   ok = len(subjects) >= 2 and bool(idtest) and all(
       u.cfg.must_pass_before(idtest[0], [w]) for w in whiles)
@@ -396,15 +468,23 @@ def run(chk):
               writers.setdefault(q, x)
   if not {'Unify', 'UnifyFriendlyRecords'} <= set(writers):
     raise AnalysisError('writers of .target not recognised: %s' % sorted(writers))
+  def only_called_by_owners(q):
+    callers = {g for g, f in m.funcs.items() if g != q and any(
+        isinstance(c, ast.Call) and call_tail(c) == q.split('.')[-1] for c in walk_local(f.node))}
+    return bool(callers) and callers <= owners
   for q, x in sorted(writers.items()):
-    chk.ob('C16-R3', q in owners, None, '%s may redirect a reference' % q,
+    # a helper that only the owners call writes on their behalf
+    chk.ob('C16-R3', q in owners or only_called_by_owners(q), None, '%s may redirect a reference' % q,
            '%s assigns `.target`: observers (Target, VeryConcreteType, '
            'RenderType, IsBadType ...) must not change what a reference '
            'denotes - a lookup between two unifications would change the '
            'result' % q, fi=m.funcs[q], node=x)
   end_of_chain(chk, 'C16-R3')
   tg = repo.func('reference_algebra.TypeReference.Target')
+  ci_ = m.cls('TypeReference')
   ok = any(isinstance(x, ast.While) and 'WeMustGoDeeper' in norm(x.test)
-           for x in walk_local(tg.node))
+           for x in walk_local(tg.node)) or any(
+      isinstance(c, ast.Call) and isinstance(c.func, ast.Attribute) and
+      c.func.attr in returns_end_of_chain(ci_) for c in walk_local(tg.node))
   chk.ob('C16-R3', ok, None, 'Target() follows the chain to its end',
          'Target returns an intermediate reference', fi=tg)
